@@ -9,7 +9,8 @@ Exact ties: the step each of split / join / lift / wrap records equals the step 
 can_join, join_point, lift_target, find_wrapping, insert_point, drop_point, can_change_type) equals the model's
 (lean/PM/Structure.lean, Structure2.lean), `None` and "raises" included, also at off-guard positions.
 Guard ties (relational, all schemas incl. random and aimed ones): the guards of the theorems "an approved edit applies"
-(Props/C12.lean `canSplit_split_applies`, …; model functions `splitGuard`, … of lean/PM/Structure.lean) are evaluated by the
+(Props/C12.lean `canSplit_split_applies`, `canJoin_join_applies`, `findWrapping_wrap_succeeds`; model functions `splitGuard`,
+`joinGuard`, `wrapGuard` ∧ `wrapBuilds` of lean/PM/Structure.lean, Structure2.lean, StructEdit.lean) are evaluated by the
 driver at every approved edit: approved ∧ guard ⇒ the real edit succeeded (a mismatch otherwise).  Aimed schemas
 (`AIMED`, outside the family: approval without the guard is known not to be enough there) make the guards bite.
 Search: approve ⇒ perform ⇒ `check()` ∧ leaf/text sequence equal; helpers never die with an internal
@@ -57,6 +58,20 @@ def aimed():
                 "doc": {"content": "(A | B)+"}, "A": {"content": "(text|image) (text|image) (text image)?"},
                 "B": {"content": "(text|image) image"},
                 "image": {"inline": True}, "text": {"inline": True}}, "marks": {"em": {}}}), "join-unstable"),
+            # block nodes may carry marks (`doc` allows all, `section` only `em`, `quote` none): `find_wrapping` compares types only,
+            # the wrap asks the innermost wrapper `can_replace`, marks included
+            schemas.SchemaInfo(Schema({"nodes": {
+                "doc": {"content": "block+", "marks": "_"}, "p": {"content": "text*", "group": "block"},
+                "quote": {"content": "block+", "group": "block"},
+                "section": {"content": "block+", "group": "block", "marks": "em"},
+                "text": {"inline": True}}, "marks": {"em": {}, "strong": {}}}), "marked-blocks"),
+            # `compute_wrapping` stops when the last wrapper found accepts the target as *first* child (`pair` for `cell`),
+            # `Transform.wrap` wants every wrapper to accept the next one as its only child (`box` for `item` does)
+            schemas.SchemaInfo(Schema({"nodes": {
+                "doc": {"content": "block+"}, "p": {"content": "text*", "group": "block"},
+                "box": {"content": "item+", "group": "block"}, "item": {"content": "(p | sec)+"}, "sec": {"content": "p p+"},
+                "pair": {"content": "cell cell", "group": "block"}, "cell": {"content": "p+"},
+                "text": {"inline": True}}, "marks": {"em": {}}}), "wrap-first-child"),
         ]
     return _AIMED
 
@@ -248,10 +263,11 @@ def run(ctx):
                         if st != "ok":
                             ctx.violation("find_wrapping-raises", f"find_wrapping raised {wr}", replay)
                         elif wr is not None:
-                            perform(ctx, info, d, "wrap", lambda tr: tr.wrap(br, wr), dict(replay, chain=[w.type.name for w in wr]),
-                                    reqs, metas, bundled,
-                                    build={"k": "wrap", "from": br.from_.pos, "to": br.to.pos, "depth": br.depth,
-                                           "wrappers": [[info.nid[w.type.name], info.attrs(w.type, w.attrs)] for w in wr]})
+                            wfields = {"from": br.from_.pos, "to": br.to.pos, "depth": br.depth,
+                                       "wrappers": [[info.nid[w.type.name], info.attrs(w.type, w.attrs)] for w in wr]}
+                            done = perform(ctx, info, d, "wrap", lambda tr: tr.wrap(br, wr), dict(replay, chain=[w.type.name for w in wr]),
+                                           reqs, metas, bundled, build=dict(wfields, k="wrap"))
+                            guard(info, d, "wrap", wfields, replay, done is not None)
                 # ---- insert_point
                 nt = rng.choice(list(schema.nodes.values()))
                 st, ip = outcome(lambda: insert_point(d, pos, nt))
